@@ -127,6 +127,7 @@ func (c *Cluster) handleMetadata(creq *clientReq) (kmsg.Response, error) {
 				continue
 			}
 			c.data.mkt(topic, -1, -1, nil)
+			c.persistTopicsState()
 			ps, _ = c.data.tps.gett(topic)
 		}
 
